@@ -132,7 +132,91 @@ theorem C20.cutoff_twin (s : List Nat) (w : Nat) (tail : Bool) (hw : 1 ≤ w) (o
         rw [isPrefixB_iff]
         exact List.reverse_prefix.mpr (List.drop_suffix _ _)
 
+/-! ### the table: one row per registered job, ascending due order, true count, equal widths -/
+
+theorem sortByDue_perm (jobs : List JobRow) : (sortByDue jobs).Perm jobs := List.mergeSort_perm _ _
+
+/-- **exactly one row per registered job**: the rows are the jobs' rows, each job once (the sorted
+    list is a permutation of the registry), so their number is the number of registered jobs - the
+    number the heading reports -/
+theorem C20.table_one_row_per_job (jobs : List JobRow) :
+    (tableRows jobs).length = headingCount jobs ∧
+    (tableRows jobs).Perm (jobs.map (fun j => row j.cells)) := by
+  unfold tableRows headingCount
+  refine ⟨by rw [List.length_map]; exact (sortByDue_perm jobs).length_eq, (sortByDue_perm jobs).map _⟩
+
+/-- **ascending due-time order**, for every registry iteration order -/
+theorem C20.table_sorted (jobs : List JobRow) :
+    (sortByDue jobs).Pairwise (fun a b => a.due ≤ b.due) := by
+  have := List.pairwise_mergeSort (le := fun (a b : JobRow) => decide (a.due ≤ b.due))
+    (by intro a b c h1 h2; simp only [decide_eq_true_eq] at *; omega)
+    (by intro a b; simp only [Bool.or_eq_true, decide_eq_true_eq]; omega) jobs
+  simpa [sortByDue] using this
+
+/-- jobs with equal due instants keep their relative (registry iteration) order: the sort is stable,
+    so the table is a function of the registry order alone -/
+theorem C20.table_stable (jobs : List JobRow) (d : Int) :
+    (jobs.filter (fun j => j.due == d)).Sublist (sortByDue jobs) := by
+  unfold sortByDue
+  apply List.sublist_mergeSort (le := fun (a b : JobRow) => decide (a.due ≤ b.due))
+  · intro a b c h1 h2; simp only [decide_eq_true_eq] at *; omega
+  · intro a b; simp only [Bool.or_eq_true, decide_eq_true_eq]; omega
+  · rw [List.pairwise_filter]
+    have hall : ∀ (l : List JobRow), l.Pairwise (fun x y => (x.due == d) = true → (y.due == d) = true → decide (x.due ≤ y.due) = true) := by
+      intro l
+      induction l with
+      | nil => exact List.Pairwise.nil
+      | cons x xs ih =>
+          refine List.Pairwise.cons ?_ ih
+          intro y _ ha hb
+          simp only [beq_iff_eq] at ha hb
+          simp only [decide_eq_true_eq]; omega
+    exact hall jobs
+  · exact List.filter_sublist
+
+/-- a cell produced through `str_cutoff` fits its column and is unchanged when the text fitted -/
+theorem C20.cut_cell_fits (a : Align) (w : Nat) (tail : Bool) (text : List Nat) (hw : 1 ≤ w) :
+    ∃ c, cutCell a w tail text = some c ∧ c.width = w ∧ c.text.length ≤ c.width ∧
+      (text.length ≤ w → c.text = text) := by
+  unfold cutCell
+  cases h : strCutoff text w tail with
+  | none => exact absurd ((C20.cutoff_rejects_zero_width text w tail).mp h) (by omega)
+  | some out =>
+      refine ⟨_, rfl, rfl, ?_, ?_⟩
+      · show out.length ≤ w
+        rw [C20.cutoff_len text w tail hw out h]; exact Nat.min_le_right _ _
+      · intro hf
+        rw [C20.cutoff_fits text w tail hw hf] at h
+        exact (Option.some.inj h).symm
+
+/-- **every table row is exactly as wide as the header row**: if all rows use the header's column
+    widths and every cell fits its column (`cut_cell_fits` for the abbreviated columns; the fixed-width
+    type / due-at columns fit by construction), each row of the table has the header's length -/
+theorem C20.table_rows_same_width (header : List Cell) (jobs : List JobRow)
+    (hh : ∀ c ∈ header, c.text.length ≤ c.width)
+    (hw : ∀ j ∈ jobs, j.cells.map (·.width) = header.map (·.width))
+    (hf : ∀ j ∈ jobs, ∀ c ∈ j.cells, c.text.length ≤ c.width) :
+    ∀ r ∈ tableRows jobs, r.length = (row header).length := by
+  intro r hr
+  unfold tableRows at hr
+  obtain ⟨j, hj, rfl⟩ := List.mem_map.mp hr
+  have hjm : j ∈ jobs := (sortByDue_perm jobs).mem_iff.mp hj
+  rw [C20.row_width j.cells (hf j hjm), C20.row_width header hh]
+  unfold rowWidth
+  have h1 := hw j hjm
+  have h2 : j.cells.length = header.length := by
+    have := congrArg List.length h1
+    simpa using this
+  rw [h1, h2]
+
 /-! non-vacuity -/
+/-- the hypotheses of `table_rows_same_width` are met by a concrete header and two job rows -/
+example : ∀ r ∈ tableRows [{ due := 2, cells := [{ align := .left, width := 3, text := [97] }, { align := .right, width := 2, text := [] }] },
+                            { due := 1, cells := [{ align := .left, width := 3, text := [98, 99] }, { align := .right, width := 2, text := [48, 49] }] }],
+    r.length = (row [{ align := .left, width := 3, text := [116] }, { align := .right, width := 2, text := [119] }]).length :=
+  C20.table_rows_same_width _ _ (by decide) (by decide) (by decide)
+example : (sortByDue [{ due := 10, cells := [] }, { due := 20, cells := [] }, { due := 20, cells := [] }]).map (·.due) = [10, 20, 20] := by
+  rw [sortByDue, List.mergeSort_of_pairwise (by simp)]; rfl
 example : strCutoff [97, 98, 99, 100, 101, 102, 103] 4 false = some [35, 101, 102, 103] := by decide
 example : strCutoff [97, 98, 99, 100, 101, 102, 103] 1 false = some [35] := by decide
 example : strCutoff [97, 98, 99, 100, 101, 102, 103] 2 true = some [97, 35] := by decide
